@@ -784,7 +784,7 @@ func genPlan() *rapid.Generator[Plan] {
 				case c <= 5:
 					toks = append(toks, rapid.SampledFrom(litToks).Draw(t, "lit"))
 				case c <= 8:
-					name := rapid.SampledFrom([]string{"x", "y", "id", "k-1"}).Draw(t, "pn")
+					name := rapid.SampledFrom([]string{"x", "y", "id", "k-1", "idx", "i", "xy"}).Draw(t, "pn") // some are prefixes of others
 					if rapid.IntRange(0, 19).Draw(t, "dupok") != 0 {
 						for hasTok(toks, "$"+name) {
 							name += "z"
@@ -820,6 +820,15 @@ func genPlan() *rapid.Generator[Plan] {
 				r.Group = rapid.SampledFrom([]string{"", "ignored", "${nope}"}).Draw(t, "pg")
 			case g == 9:
 				r.Group = rapid.SampledFrom([]string{"${missing}", "${", "$x", "${}", "x.${a b}"}).Draw(t, "gbad")
+				if len(params) > 0 && rapid.Bool().Draw(t, "gprefix") {
+					// a tag that is only a prefix (or an extension) of a placeholder's name
+					a := rapid.SampledFrom(params).Draw(t, "gpp")
+					if len(a) > 1 && rapid.Bool().Draw(t, "shorter") {
+						r.Group = "${" + a[:len(a)-1] + "}"
+					} else {
+						r.Group = "${" + a + "x}"
+					}
+				}
 			default:
 				if len(params) > 0 {
 					a := rapid.SampledFrom(params).Draw(t, "gp")
